@@ -816,7 +816,8 @@ func convertToExp(parser *syntax.Parser, split bool, val json.Marshaler,
 			tname.ArrayDim = tname.MapDim - 1
 			tname.MapDim = 0
 		}
-		for k, v := range val {
+		for _, k := range sortedKeys(val) {
+			v := val[k]
 			if e, err := convertToExp(parser, false,
 				v, tname, lookup); err != nil {
 				return &res, err
@@ -836,7 +837,8 @@ func convertToExp(parser *syntax.Parser, split bool, val json.Marshaler,
 			tname.ArrayDim = tname.MapDim - 1
 			tname.MapDim = 0
 		}
-		for k, v := range val {
+		for _, k := range sortedKeys(val) {
+			v := val[k]
 			if e, err := convertToExp(parser, false,
 				v, tname, lookup); err != nil {
 				return &res, err
